@@ -156,6 +156,19 @@ class Prop(PropBase):
             repeat_ok = bool(np.array_equal(np.asarray(w_again.data), np.asarray(w.data))
                              and np.array_equal(np.asarray(y.data), y_before)
                              and np.array_equal(np.asarray(y_again.data), y_before))
+            lazy_ok = None
+            if case["seed"] % 3 == 0:
+                from .. import lazy
+                zd, zo = lazy.dask_copy(np, z), lazy.dask_copy(np, z, data=np.asarray(z.data) * (1 + 0.5j) + 2)
+                P2 = max(1, P // 2)
+                ls = [pb.contrib.stft(zd, nperseg=P), pb.contrib.stft(zo, nperseg=P), pb.contrib.stft(zd, nperseg=P2),
+                      pb.contrib.istft(pb.contrib.stft(zd, nperseg=P), nperseg=P)]
+                ok, alone = lazy.joint_equal(np, [l.data for l in ls])
+                scale = float(np.max(np.abs(np.asarray(z.data)))) or 1.0
+                lazy_ok = bool(ok and alone[0].shape == y_before.shape and np.allclose(alone[0], y_before, rtol=1e-6, atol=1e-6 * scale)
+                               and np.allclose(alone[3], np.asarray(w.data), rtol=1e-6, atol=1e-6 * scale)
+                               and all(type(l.data).__module__.startswith("dask") for l in ls)
+                               and ls[0].freq_align == y.freq_align and bool(np.all(ls[0].channel_freqs == y.channel_freqs)))
         except Exception as e:
             return {"err": err_name(e)}
 
@@ -165,7 +178,7 @@ class Prop(PropBase):
                     "n": int(s.nchan), "al": s.freq_align, "bw": X.rat(X.q_value(s.chan_bw, u.Hz)),
                     "labels": [X.rat(X.q_value(f, u.Hz)) for f in s.channel_freqs],
                     "shape": list(s.shape)}
-        out = {"repeat_ok": repeat_ok, "stft": desc(y), "istft": desc(w), "orig_labels": [X.rat(X.q_value(f, u.Hz)) for f in z.channel_freqs]}
+        out = {"repeat_ok": repeat_ok, "lazy_ok": lazy_ok, "stft": desc(y), "istft": desc(w), "orig_labels": [X.rat(X.q_value(f, u.Hz)) for f in z.channel_freqs]}
         Lt = (L // P) * P
         scale = float(np.max(np.abs(x)))
         out["recon_err"] = float(np.max(np.abs(np.asarray(w.data) - x[:Lt])) / scale) if w.shape == x[:Lt].shape else -1.0
@@ -275,6 +288,8 @@ class Prop(PropBase):
         t = code["tone"]
         if t["purity"] < 0.999 or not X.close(F(t["peak_label"]), F(t["true_freq"]), atol=tol):
             return f"tone at {float(F(t['true_freq']))} Hz peaks in the sub-channel labelled {float(F(t['peak_label']))} Hz"
+        if code.get("lazy_ok") is False:
+            return "stft/istft of Dask-backed copies (alone and evaluated in one graph) differ from the NumPy-backed results or are not lazy"
         if code.get("repeat_ok") is False:
             return "istft (or stft) called a second time on the same object gives a different answer, or changed its argument"
         w = code["istft"]
